@@ -240,6 +240,9 @@ func NewMatchField[Int constraints.Integer | *big.Int | ~[]byte, Mask constraint
 		} else {
 			maskInt = rangeMask(uint(mask[0]), uint(mask[1]))
 		}
+		if maskInt.BitLen() > int(length)*8 {
+			return nil, fmt.Errorf("mask window exceeds the %d-byte field", length)
+		}
 		maskValue := new(big.Int).And(value, maskInt)
 		if value.Cmp(maskValue) != 0 {
 			return nil, fmt.Errorf("invalid mask and data")
